@@ -80,3 +80,51 @@ pub proof fn lemma_const1(e: Expression, v: int, env: Env)
     requires is_const1(e, v),
     ensures eval_spec(e, env) == EvalR::Val(1, v as nat), expr_wf(e), expr_bits(e) == 1,
 {}
+
+// ---- graphs with several new blocks ---------------------------------------------------------------------------------------
+/// `n` is `o` plus `k` new blocks with the indices o.next_index .. o.next_index + k - 1 (every old block untouched, counters
+/// advanced, temporaries / SSA flag unchanged)
+pub open spec fn k_blocks(o: ControlFlowGraph, n: ControlFlowGraph, k: int) -> bool {
+    let b = o.next_index as int;
+    &&& n.cfg_wf()
+    &&& n.next_index == b + k && n.next_temp_index == o.next_temp_index && n.ssa_form == o.ssa_form
+    &&& forall|i: int| 0 <= i < k ==> !o.has_block((b + i) as usize) && #[trigger] n.has_block((b + i) as usize)
+            && n.graph.vertices@[(b + i) as usize].index == b + i && n.graph.vertices@[(b + i) as usize].phi_nodes@.len() == 0
+    &&& forall|j: usize| o.has_block(j) ==> #[trigger] n.has_block(j) && n.graph.vertices@[j] == o.graph.vertices@[j]
+    &&& forall|j: usize| #[trigger] n.has_block(j) ==> o.has_block(j) || (b <= j < b + k)
+}
+/// block number `i` (counted from the first new block) holds exactly `cnt` instructions with fresh indices 0, 1, ..
+pub open spec fn blk_len(o: ControlFlowGraph, n: ControlFlowGraph, i: int, cnt: int) -> bool {
+    let blk = n.graph.vertices@[(o.next_index + i) as usize];
+    &&& blk.instructions@.len() == cnt
+    &&& forall|q: int| 0 <= q < cnt ==> (#[trigger] blk.instructions@[q]).index == q && blk.instructions@[q].address is None
+}
+/// operation of instruction `q` of new block `i`
+pub open spec fn blk_op(o: ControlFlowGraph, n: ControlFlowGraph, i: int, q: int) -> Operation { n.graph.vertices@[(o.next_index + i) as usize].instructions@[q].operation }
+/// the edge from new block `h` to new block `t` exists; its guard
+pub open spec fn has_new_edge(o: ControlFlowGraph, n: ControlFlowGraph, h: int, t: int) -> bool { n.has_edge((o.next_index + h) as usize, (o.next_index + t) as usize) }
+pub open spec fn edge_cond(o: ControlFlowGraph, n: ControlFlowGraph, h: int, t: int) -> Option<Expression> {
+    n.graph.edges@[((o.next_index + h) as usize, (o.next_index + t) as usize)].condition
+}
+/// every old edge is still there, unchanged, and every edge of `n` is an old one or one of the new pairs (given as (h, t) offsets)
+pub open spec fn edges_are(o: ControlFlowGraph, n: ControlFlowGraph, pairs: Seq<(int, int)>) -> bool {
+    let b = o.next_index as int;
+    &&& forall|e: (usize, usize)| o.graph.edges@.contains_key(e) ==> #[trigger] n.graph.edges@.contains_key(e) && n.graph.edges@[e] == o.graph.edges@[e]
+    &&& forall|e: (usize, usize)| #[trigger] n.graph.edges@.contains_key(e) ==> o.graph.edges@.contains_key(e)
+            || exists|p: int| 0 <= p < pairs.len() && e.0 == b + (#[trigger] pairs[p]).0 && e.1 == b + pairs[p].1
+    &&& forall|p: int| 0 <= p < pairs.len() ==> has_new_edge(o, n, (#[trigger] pairs[p]).0, pairs[p].1)
+}
+pub open spec fn entry_exit(o: ControlFlowGraph, n: ControlFlowGraph, entry: int, exit: int) -> bool {
+    n.entry == Some((o.next_index + entry) as usize) && n.exit == Some((o.next_index + exit) as usize)
+}
+/// guard `c2` is the negation of guard `c1`, as the lifters build it: Cmpeq(c1, 0:1)
+pub open spec fn is_negation(c2: Expression, c1: Expression) -> bool { c2 is Cmpeq && lhs_of(c2) == c1 && is_const1(rhs_of(c2), 0) }
+
+pub proof fn lemma_negation(c2: Expression, c1: Expression, p: bool, env: Env)
+    requires is_negation(c2, c1), eval_spec(c1, env) == EvalR::Val(1, b2n(p)),
+    ensures eval_spec(c2, env) == EvalR::Val(1, b2n(!p)),
+{
+    reveal(bv_cmpeq);
+    lemma_const1(rhs_of(c2), 0, env);
+    assert(eval_spec(c2, env) == bin_spec(BinOp::Cmpeq, eval_spec(c1, env), eval_spec(rhs_of(c2), env)));
+}
